@@ -28,6 +28,10 @@ class Violation(Exception):
     self.event_index = event_index
 
 
+class StopRun(Exception):
+  """Ends a run quietly (e.g. another property's oracle fired inside a guard)."""
+
+
 class Outcome(object):
   """Result of executing one event."""
   def __init__(self, ev):
